@@ -12,12 +12,20 @@ import sys
 import common
 from common import err_kind, enc, encl, dec, decl, close, close_list
 from fractions import Fraction as F
+from props import c11_hist as H
 
 ID = "C11"
 RULE = ("exhaustive small grids (reflection vectors of length <= 3 over a 9-point pool, pole sets of "
         "<= 2 real poles and <= 1 conjugate pair x 4 gains) plus random larger cases; non-trivial = "
         "order >= 1 (at least one step-down iteration runs / one reflection coefficient exists); "
-        "distinct = distinct JSON case")
+        "distinct = distinct JSON case; long inputs: reflection vectors / pole sets / autocorrelations of order 30-129 "
+        "around powers of two in exact arithmetic; histories (entry hist, harness/props/c11_hist.py): 3-40 operations "
+        "of a caller on up to three MUTABLE ZFilter objects (levinson_durbin results and ZFilters edited in place by "
+        "Poly item assignment / attribute rebinding, one Poly object bound to two filters, the same autocorrelation "
+        "object passed again, numerically equal coefficients given as float / int / Fraction in both orders with "
+        "critical denominators whose binary64 verdict differs from the exact one, two parcor generators drained in "
+        "turns, CascadeFilter), every history in a forked child of a pristine process; a history is non-trivial when "
+        "it contains a parcor / parcor_stable query")
 TRUSTED = [
     "hand-written Lean model ALV/Model/C11.lean of lazy_lpc.parcor / parcor_stable / levinson_durbin "
     "(modelled, not verified: ZFilter/Poly arithmetic as a window of Laurent coefficients over a field, "
@@ -28,12 +36,27 @@ TRUSTED = [
     "proved for every order over real coefficients / complex poles (Props.C11.schur_cohn, "
     "stable_eq_construction); the tie additionally compares the Lean verdict with the construction on every "
     "generated pole set (exact rationals)",
+    "histories: hand-written heap model ALV/Model/C11Hist.lean (Poly objects = cells, ZFilter = two cell indices + the "
+    "`error` attribute; `f.numpoly[i] = v`, `f.numpoly = Poly(..)`, `f.numpoly = g.denpoly` are plain Python object "
+    "semantics, modelled not verified); in the model a query is a pure function of the current contents of the two "
+    "cells and returns the heap unchanged BY CONSTRUCTION (no theorem: it is the definition) - the harness checks it "
+    "on the real code by comparing the contents of every live filter with the Lean heap after every step and every "
+    "query with the payload of the same call taken alone on the current contents (Props.C11.hist_query_alone)",
+    "numerically equal int / float / Fraction coefficients are one and the same Lean input (the model is over a field): "
+    "independence of the numeric type of EARLIER calls holds in the model by construction; steps on int / float "
+    "coefficients are compared with tolerance 1e-9 and not judged when critical or ill conditioned, steps on Fractions "
+    "exactly",
+    "isolation (harness/props/c11_hist.py: zygote_start): a process forked before this one has used the library forks "
+    "one child per history, so a witness is self-contained (no cache / attribute / module state left by earlier cases)",
 ]
 ASSUMPTIONS = [
     "leading (delay 0) coefficient of the step-down input is non-zero (ZFilter's constructor guarantees "
     "it for denominators; a numerator z^-1*(...) is outside the property)",
     "coefficients are exact rationals; float rounding inside the real code is only bounded by the "
-    "1e-9 tolerance in the cases where Poly's float zero leaks in (flagged per case)",
+    "1e-9 tolerance in the cases where Poly's float zero leaks in (flagged per case); floats yielded for an "
+    "all-Fraction filter without a zero reflection coefficient are NOT excused (compared exactly)",
+    "histories: the caller never leaves a Poly empty or with a zero leading (power 0) coefficient, never uses negative "
+    "or fractional powers, and never hashes a Poly (a hashed Poly refuses item assignment)",
 ]
 MANIFEST = {
     "text": ("Lean 4 theorems, for every order and any field: parcor as coded inverts the step-up recursion and "
@@ -41,7 +64,12 @@ MANIFEST = {
              "k^2 = 1 (all inputs); levinson_durbin as coded = step-up of its reflection coefficients with "
              "error = r0*prod(1-k^2); gain invariance of the specification and of the repaired code, and its "
              "NEGATION for the code as it stands (defect D3); Schur-Cohn in both directions for every order "
-             "(real coefficients, complex poles): verdict True <-> all poles strictly inside the unit circle"),
+             "(real coefficients, complex poles): verdict True <-> all poles strictly inside the unit circle; "
+             "histories on mutable filter objects (heap of Poly cells): well-formedness invariant under every operation "
+             "incl. the raising ones, frame theorems (only an in-place edit through a bound filter changes an existing "
+             "Poly; only rebinding changes a filter), coefficient semantics of poly[i] = v, a query = the same query "
+             "taken alone on the current contents, levinson_durbin result edited (rebinding or item loop) then parcor "
+             "yields the NEW reflection coefficients, aliasing, verdict <-> poles of the CURRENT denominator"),
     "note": ("Trusted: Lean kernel, axioms propext/Classical.choice/Quot.sound, the Python correspondence harness. "
              "The model is hand written (ZFilter/Poly arithmetic abstracted to a window of Laurent coefficients "
              "over a field) and validated differentially. Nothing of the property is left pending; the parcor_stable "
@@ -271,7 +299,48 @@ def generate(rng, tier, scale=1):
             cases.append(case_lev(r, max(1, order - 1)))       # order below len(r) - 1
         else:
             cases.append(case_lev(r[:max(2, order)], order + rng.choice([0, 1, 2])))   # zero extension
+    if scale == 1:
+        cases.extend(long_cases(rng, quick))
+    cases.extend(H.generate(rng, tier, scale))
     return cases
+
+
+def long_cases(rng, quick):
+    """high orders around powers of two, exact arithmetic (no zero coefficient: Poly's float zero stays out)"""
+    out = []
+    orders = [31, 32, 33, 63, 64, 65] if quick else [30, 31, 32, 33, 48, 63, 64, 65, 96, 100, 127, 128, 129]
+    for n in orders:
+        ks = [F(rng.choice([-3, -2, -1, 1, 2, 3]), rng.choice([4, 4, 5, 7])) for _ in range(n)]
+        out.append(case_stepup(ks))
+        if n <= (33 if quick else 65):
+            ks2 = list(ks)
+            ks2[rng.randrange(n // 2, n)] = rng.choice([F(1), F(-1)])       # ParCorError deep in the recursion
+            out.append(case_stepup(ks2))
+    for n in ([31, 33] if quick else [31, 32, 33, 63, 64, 65]):
+        for where in (["in", "on"] if quick else ["in", "on", "out"]):
+            npair = rng.randint(n // 4, n // 3)
+            # small dyadic poles: the exact recursion stays cheap (a few hundred digits at order 64)
+            reals = [F(rng.choice([-3, -2, -1, 1, 2, 3]), 4) for _ in range(n - 2 * npair)]
+            pairs = [rng.choice([(F(0), F(1, 2)), (F(1, 2), F(1, 2)), (F(-1, 2), F(1, 4)), (F(1, 4), F(-3, 4)),
+                                 (F(-1, 4), F(1, 2))]) for _ in range(npair)]
+            if where == "on":
+                if rng.random() < .5:
+                    reals[0] = rng.choice(ON_REAL)
+                else:
+                    pairs[0] = rng.choice(ON_PAIR)
+            elif where == "out":
+                reals[0] = rng.choice(OUT_REAL)
+            out.append(case_stable(rng.choice(GAINS), reals, pairs))
+    for n in ([32, 64] if quick else [31, 32, 33, 63, 64, 65]):
+        ks = [F(0)] * n
+        for i in rng.sample(range(n - 1), 4):
+            ks[i] = F(rng.choice([-2, -1, 1, 2]), 8)
+        ks[-1] = F(rng.choice([-1, 1]), 8)
+        r = acorr_from_ks(ks, F(rng.choice([1, 2])))
+        out.append(case_lev(r, n))
+        if not quick:
+            out.append(case_lev(r[:n // 2 + 1], n))          # zero extension up to the order
+    return out
 
 
 def rnd_pair(rng, where):
@@ -297,6 +366,9 @@ def _drain(gen):
 
 
 def impl(c):
+    H.zygote_start()       # the pristine process of the histories is forked before this one uses the library
+    if c["entry"] == "hist":
+        return H.impl(c)
     from audiolazy import ZFilter, parcor, parcor_stable, levinson_durbin
     from audiolazy.lazy_lpc import ParCorError
     e = c["entry"]
@@ -329,6 +401,8 @@ def impl(c):
 
 
 def request(c):
+    if c["entry"] == "hist":
+        return H.request(c)
     return c
 
 
@@ -379,6 +453,8 @@ def _critical(ks):
 
 def compare(c, io, drv):
     e = c["entry"]
+    if e == "hist":
+        return H.compare(c, io, drv)
     out = []
     if e in ("stepup", "parcor"):
         m = drv["model"]
@@ -388,6 +464,13 @@ def compare(c, io, drv):
             if "err" in io and io["err"] != "ValueError":
                 out.append(("spec", "impl raised " + io["err"]))
             return out
+        # Floats among the yielded coefficients of an all-Fraction filter are legitimate only through Poly's
+        # float zero: a reflection coefficient that is exactly zero is read back as `0.`; without one the
+        # coefficients must be exact (`c.get("machine")`: a history step on int / float coefficients)
+        if io["float"] and not c.get("machine") and "ks" in drv["spec"] and \
+                all(k != 0 for k in decl(drv["spec"]["ks"])) and all(k != 0 for k in decl(io["ks"])):
+            io["float"] = False
+            io["float_unexplained"] = True
         tol = TOL if io["float"] else 0
         io["compared"] = "tol 1e-9" if io["float"] else "exact"
         if io["float"] and (_critical(decl(drv["spec"]["ks"]) + decl(m["ks"])) or
@@ -470,14 +553,23 @@ def _order(c):
 
 
 def nontrivial(c, io):
+    if c["entry"] == "hist":
+        return H.nontrivial(c, io)
     return _order(c) >= 1 and io.get("err") != "ValueError"
 
 
 def tally(eng, c, io):
     e = c["entry"]
+    if e == "hist":
+        eng.count("entry", e)
+        return H.tally(eng, c, io)
     eng.count("entry", e)
     eng.count("compared:" + e, io.get("compared", "error branch"))
     eng.count("order", min(_order(c), 12))
+    if _order(c) >= 30:
+        o = _order(c)
+        eng.count("order_long", "%s %s" % (e, "30-33" if o <= 33 else "34-62" if o < 63 else "63-65" if o <= 65 else
+                                           "66-126" if o < 127 else "127-129"))
     if "err" in io:
         eng.count("impl_error", io["err"])
         return
@@ -521,9 +613,22 @@ def _simpler(x):
     return out
 
 
+LONG = 12      # above this length a list is shrunk by chunks only (every candidate costs up to seconds)
+
+
 def _list_variants(xs, keep_last_nonzero=False, minlen=1):
     xs = list(xs)
     n = len(xs)
+    if n > LONG:
+        seen = []
+        for ys in (xs[:n // 2], xs[n // 2:], xs[:-8], xs[8:], xs[:-2], xs[2:], xs[:-1], xs[1:]):
+            if len(ys) >= minlen and ys not in seen and (not keep_last_nonzero or (ys and ys[-1] != 0)):
+                seen.append(ys)
+                yield ys
+        plain = [F(1, 2) if x != 0 else x for x in xs]
+        if plain != xs:
+            yield plain
+        return
     for i in range(n):
         if n - 1 >= minlen:
             ys = xs[:i] + xs[i + 1:]
@@ -538,6 +643,10 @@ def _list_variants(xs, keep_last_nonzero=False, minlen=1):
 
 def shrink(c):
     e = c["entry"]
+    if e == "hist":
+        for s in H.shrink(c):
+            yield s
+        return
     if e == "stepup":
         for ks in _list_variants(decl(c["ks"]), keep_last_nonzero=True):
             yield case_stepup(ks)
@@ -555,6 +664,15 @@ def shrink(c):
         num = decl(c["num"]) if c.get("num") else None
         if num is not None:
             yield case_stable(g, reals, pairs)
+        if len(reals) + len(pairs) > LONG:
+            for rs in _list_variants(reals, minlen=0) if len(reals) > LONG else [reals[:len(reals) // 2], reals[1:]]:
+                yield case_stable(g, rs, pairs, num)
+            for ps in (pairs[:len(pairs) // 2], pairs[len(pairs) // 2:], pairs[1:], pairs[:-1]):
+                if len(ps) < len(pairs):
+                    yield case_stable(g, reals, ps, num)
+            if g != 1:
+                yield case_stable(F(1), reals, pairs, num)
+            return
         for i in range(len(reals)):
             if len(reals) + len(pairs) > 1:
                 yield case_stable(g, reals[:i] + reals[i + 1:], pairs, num)
@@ -572,6 +690,11 @@ def shrink(c):
                 yield {"entry": "stable_den", "den": encl(v)}
     elif e == "levinson":
         r = decl(c["r"])
+        if c["order"] > LONG:
+            for o in (c["order"] // 2, c["order"] - 8, c["order"] - 1):
+                yield case_lev(r[:o + 1], o)
+                yield case_lev(r, o)
+            return
         if c["order"] > 1:
             yield case_lev(r, c["order"] - 1)
             yield case_lev(r[:c["order"]], c["order"] - 1)
@@ -582,6 +705,10 @@ def shrink(c):
 
 def neighbours(c):
     e = c["entry"]
+    if e == "hist":
+        for s in H.neighbours(c):
+            yield s
+        return
     for s in shrink(c):
         yield s
     if e == "stepup":
@@ -609,6 +736,8 @@ def neighbours(c):
 def classify(c, io, drv):
     """signature of a disagreement with the spec"""
     e = c["entry"]
+    if e == "hist":
+        return H.classify(c, io, drv)
     if "err" in io:
         return "%s:%s" % (e, io["err"])
     if e in ("parcor", "stepup"):
